@@ -42,7 +42,7 @@ CHECKS = {
     note="Trusted: rustc MIR, call-graph construction (A-CB), confirmed per-function reasons in rules/confirmed_panics_client.json, the brotli FFI.",
  ),
  "C04": dict(
-    technique="syn-level agreement analysis between generated reader, shape marker, getters, writer and validator (finite statement grammar, fail closed)",
+    technique="syn-level agreement analysis between generated reader, shape marker, getters, writer and validator (finite statement grammar, fail closed); three-valued abstract interpretation of compute_version MIR against the writer's version gates",
     design_ref="DESIGN.md §4 C04, C01-d",
     text="Decides sibling agreement for every generated table/record: read() and the marker's byte-range functions walk the same "
          "fields in the same order with the same widths and version/flag conditions (254 markers, ~1150 getters); each getter reads "
@@ -50,9 +50,11 @@ CHECKS = {
          "file is a recognised getter form; for ~200 reader/writer type pairs the writer emits the same wire fields in the same "
          "order, width and condition (schema #[compile(skip)] fields need a confirmed reason); the count a reader uses to size an "
          "array is written from that array's length; every array-length unwrap in write_into is covered by a length report in "
-         "validate_impl (6 known findings, F11). Oracle = sibling agreement, not round-trip execution; hand-written compute_* "
-         "values, FromObjRef conversions and idempotence are not decided.",
-    note="Trusted: syn parsing; the statement grammar enumerated from font-codegen (anything else fails closed). One genuine defect repaired in the generator (F2).",
+         "validate_impl (6 known findings, F11); for the 9 hand-written compute_version functions, every version that can be "
+         "returned while a version-gated field is Some satisfies that field's gate in the generated writer (three-valued "
+         "abstract interpretation of the MIR, 35 field obligations). Oracle = sibling agreement, not round-trip execution; the "
+         "other hand-written compute_* values, FromObjRef conversions and idempotence are not decided.",
+    note="Trusted: syn parsing; the statement grammar enumerated from font-codegen (anything else fails closed); rustc MIR for C04-e. Genuine defects repaired: F2 (generator), F14 (Colr::compute_version).",
  ),
  "C05": dict(
     technique="path-sensitive typestate {dirty,clean} over MIR, dominating-guard and who-may-call queries, cast census, sibling-predicate agreement",
@@ -154,7 +156,8 @@ CHECKS = {
          "edge returns IncompatiblePatch, and the appliers/decoder have no other callers (no decoding for a mismatched id); in "
          "apply_next_patches_with_decoder no exit other than Ok is reachable after any store to a UriStatus and every store "
          "writes Applied (atomic bookkeeping for a decoder failing at any call); every decode/applier result is propagated; a "
-         "REPLACE_TABLE entry is decoded without a dictionary. Does not decide which bytes change, glyph-keyed order "
+         "REPLACE_TABLE entry is decoded without a dictionary; in the glyph-keyed applier a tag is marked processed only after a "
+         "call that received the new font's builder (untouched tables are copied). Does not decide which bytes change, glyph-keyed order "
          "independence or offset widening arithmetic (value level).",
     note="Trusted: rustc MIR, fact dumper, explorer; the brotli decoder (incl. FFI) is a black box returning Ok/Err.",
  ),
